@@ -3,6 +3,8 @@
 // Contracts for package dag (compiled only with -tags=verif; checked by /verif/bin/govc).
 package dag
 
+import "grog/internal/model"
+
 //@ func (*DirectedTargetGraph).GetDependencies(g, target) (r)
 //@   pure
 //@   ensures [in_edges] r == g.inEdges[labelOf(target)]
@@ -62,3 +64,12 @@ package dag
 //@   invariant [processed_kept] forall j int :: {nodes[j]} 0 <= j && j <= rangeindex ==> inNodes(unique, nodes[j])
 //@   invariant [kept_from_input] forall i int :: {unique[i]} 0 <= i && i < len(unique) ==> inNodes(nodes, unique[i])
 //@   invariant [each_once] noDup(unique)
+
+// C20: "deps and rdeps ... are mutual inverses" (direct sets), over the two edge maps kept in lock-step by AddEdge.
+//@ func lemma_deps_rdeps_inverse(g, n, d) (deps, dependants)
+//@   requires [abs] absEdges(g) && absOutEdges(g) && isNode(n) && isNode(d)
+//@   ensures [inverse] inNodes(deps, d) <==> inNodes(dependants, n)
+
+func lemma_deps_rdeps_inverse(g *DirectedTargetGraph, n, d model.BuildNode) ([]model.BuildNode, []model.BuildNode) {
+	return g.GetDependencies(n), g.GetDependants(d)
+}
